@@ -2534,6 +2534,56 @@ def r03_19(ctx, counts) -> RuleResult:
     return res
 
 
+def r03_20(ctx, counts) -> RuleResult:
+    """the JSON decoder raises more than JSONDecodeError"""
+    model: Model = ctx.model
+    res = RuleResult(
+        'R03.20', 'JSON-DECODER-ERRORS',
+        'json.JSONDecoder.decode / json.loads raise JSONDecodeError for malformed text, a plain '
+        'ValueError for a number with more digits than the interpreter\'s int conversion limit '
+        '(4300) and RecursionError for deeply nested arrays/objects. Every such call in the '
+        'package lies in a try whose handlers cover ValueError (the superclass; or Exception) '
+        'and RecursionError and raise self.error(..). parse-json of a 5000-digit number escaped '
+        'as a bare ValueError, of 100000 nested arrays as a RecursionError.')
+    n = 0
+    for f in sorted(model.all_functions(), key=lambda q: q.key):
+        calls = [c for c in walk_local(f.node) if isinstance(c, ast.Call) and (
+            dotted(c.func) in ('json.loads', 'json.load')
+            or (isinstance(c.func, ast.Attribute) and c.func.attr == 'decode'
+                and 'JSONDecoder' in stmt_text(c.func.value)))]
+        if not calls:
+            continue
+        tctx = try_context(f.node)
+        for c in calls:
+            n += 1
+            covered: set[str] = set()
+            for tr, part in tctx.get(id(c), []):
+                if part != 'body':
+                    continue
+                for h in tr.handlers:
+                    for nm in handler_names(model, f.module, h):
+                        covered.add(nm.split('.')[-1])
+            need = []
+            if not covered & {'ValueError', 'Exception', 'BaseException'}:
+                need.append('ValueError')
+            if not covered & {'RecursionError', 'RuntimeError', 'Exception', 'BaseException'}:
+                need.append('RecursionError')
+            res.instances.append(f'{f.key}: L{c.lineno} {stmt_text(c)[:40]} handlers '
+                                 f'{sorted(covered)}: missing {need}')
+            if not need:
+                res.ok()
+            else:
+                res.fail(finding('R03.20', f, c, f'JSON decode without {"/".join(need)}',
+                                 f'`{stmt_text(c)[:50]}` can raise {" and ".join(need)} (a number '
+                                 f'beyond the int conversion limit / too many nested levels) and '
+                                 f'the enclosing handlers cover only {sorted(covered)}: the error '
+                                 f'escapes as it is'))
+    counts['json_decode_calls'] = n
+    if n < 2:
+        raise AnalysisError(f'JSON decoder calls located: {n} < 2')
+    return res
+
+
 def run(ctx) -> dict:
     counts: dict[str, int] = {}
     results = [r03_1(ctx, counts), r03_2(ctx, counts), r03_3(ctx, counts), r03_4(ctx, counts),
@@ -2542,7 +2592,7 @@ def run(ctx) -> dict:
                r03_11(ctx, counts), r03_12(ctx, counts), r03_13(ctx, counts),
                r03_14(ctx, counts), r03_15(ctx, counts),
                r03_16(ctx, counts), r03_17(ctx, counts), r03_18(ctx, counts),
-               r03_19(ctx, counts)]
+               r03_19(ctx, counts), r03_20(ctx, counts)]
     # "no call hangs": the lock discipline of C19 is a necessary condition (a lock left held on
     # an error path blocks every later evaluation that needs it)
     from . import c19_global
